@@ -596,7 +596,7 @@ func (e *env) headers() {
 			}
 		}
 	})
-	r.Set("header", fmt.Sprintf("timestamp x server id x next position over %v, flags %v, all 256 type codes, header length {19,25}, checksum per tier, both flavors", lat, flags))
+	r.Set("header", fmt.Sprintf("timestamp x server id x next position over %v, flags %v, all 256 type codes, header length {19,25}, checksum %s, both flavors", lat, flags, map[bool]string{false: "{off, CRC32}", true: "{off, CRC32, undef}"}[r.Thorough()]))
 }
 
 func verString(n int) []byte {
@@ -915,7 +915,7 @@ func (e *env) queries() {
 	if cut.Load() {
 		r.SetExhaustive(false)
 	}
-	r.Set("query", fmt.Sprintf("%d status-variable configurations = every subset of codes {0, 1, 2|6, 3, 4, 5} in emission order (catalog as Q_CATALOG or Q_CATALOG_NZ, catalog / time zone lengths %v) x later codes {none, 7..13+16..20, 7..20}; x charset triples %d x db length %v x SQL length %v x payload fillers %v x header length {19,25} x checksum {off,CRC32,undef} x flavor",
+	r.Set("query", fmt.Sprintf("%d status-variable configurations = every subset of codes {0, 1, 2|6, 3, 4, 5} in emission order (catalog as Q_CATALOG or Q_CATALOG_NZ, catalog / time zone lengths %v) x later codes {none, 7..13+16..20, 7..20}; x charset triples %d x db length %v x SQL length %v x payload fillers %v (0: every byte 0x04 = looks like Q_CHARSET_CODE, 1: 0x00, 2: 0xff, 3: counting, 4: 0x06, 5: 0x05, 6: 0x02, 100: seeded pseudo-random) x header length {19,25} x checksum {off,CRC32,undef} x flavor",
 		len(sets), strLens, len(charsets), dbLens, sqlLens, fillers))
 	r.Sample("query", map[string]interface{}{"status_vars": "0 1 6(len255) 3 4 5(len255) 7..20", "db_bytes": 255, "sql_bytes": 65535, "filler": "every payload byte = 0x04 (looks like Q_CHARSET_CODE)",
 		"oracle": "Database, SQL byte for byte; Charset = the triple written (nil iff Q_CHARSET_CODE absent)"})
@@ -1040,6 +1040,7 @@ func (e *env) gtids() {
 
 func run(r *chk.Run) {
 	selfTest()
+	r.Set("reference_self_test", "9 events captured from real servers (MySQL 5.6.24, MariaDB 10.0.13: FORMAT_DESCRIPTION, GTID, QUERY with and without CRC32) re-encoded bit for bit by the reference encoder before the enumeration")
 	// the 64 KB query events are allocation-bound: collect by memory limit, not by growth ratio
 	defer debug.SetGCPercent(debug.SetGCPercent(-1))
 	defer debug.SetMemoryLimit(debug.SetMemoryLimit(3 << 30))
